@@ -58,7 +58,9 @@ impl C10Checker {
             match &first[g] {
                 None => first[g] = Some(r),
                 Some(f) => {
-                    if *f != r {
+                    // two errors count as the same answer: the text of an error quotes the live tree, which a braille call
+                    // in between annotates (the same reason as in the comparison with the fresh session below)
+                    if *f != r && !(f.is_err() && r.is_err()) {
                         s.violation("getter-not-repeatable", format!("{} gives different results when called again", getters[g].name()), format!("first: {}\nlater: {}", f.short(), r.short()));
                         return;
                     }
@@ -225,7 +227,9 @@ pub fn history_steps(rng: &mut Rng, n: usize, with_touch: bool, exprs: &[usize])
                 let (n, v) = random_pref_switch(rng);
                 s.push(Step::Call(Op::SetPref(n, v)));
             }
-            7..=9 => s.push(Step::Call(Op::SetMathml(if rng.chance(0.25) {
+            7..=9 => s.push(Step::Call(Op::SetMathml(if rng.chance(0.15) {
+                gen_expr(rng)
+            } else if rng.chance(0.2) {
                 ExprRef::Corpus(rng.below(pools::corpus().len()))
             } else if rng.chance(0.9) {
                 ExprRef::Pool(*rng.pick(exprs))
